@@ -16,7 +16,7 @@ import os
 import re
 import resource
 
-from ..common import HarnessError, canon, has_host, load_impl
+from ..common import HarnessError, canon, has_host, is_failure_line, load_impl
 from ..engine.shard import Acc, Family, split
 
 LEVEL = 'exploration'
@@ -407,7 +407,8 @@ def check_lib(case, acc):
 
     # (2) independently: does the call itself fail?  (direct call of the function object, fresh copy, no wrapper)
     args2 = list(copy.deepcopy(base))
-    opt2 = {'globals': {}, 'logFn': lambda _line: None, 'debug': True, 'statementCount': 0}
+    own = []     # lines the function itself logs (systemFetch reports an unavailable resource): not call-wrapper reports
+    opt2 = {'globals': {}, 'logFn': own.append, 'debug': True, 'statementCount': 0}
     if mode:
         opt2['fetchFn'] = FETCHERS[mode]
     direct = run_guarded(lambda: funcs[name](args2, opt2))
@@ -416,8 +417,7 @@ def check_lib(case, acc):
     # parse_expression inside a data function) is a failed call
     failed = direct[0] == 'host-exc' or (direct[0] == 'doc' and direct[1] != 'BareScriptRuntimeError')
 
-    prefix = f'BareScript: Function "{name}" failed with error:'
-    nfail = sum(1 for line in logs if isinstance(line, str) and line.startswith(prefix))
+    nfail = sum(1 for line in logs if is_failure_line(line, name)) - sum(1 for line in own if is_failure_line(line, name))
     if out[0] == 'doc':
         return 'doc:' + out[1]
     if not logs or logs[-1] != SENTINEL:
@@ -723,7 +723,7 @@ def check_models(case, acc):
             acc.evals += 1
             if not check_outcome(out2, dict(case, options=repr(o2)), acc, what + f' evaluated as an expression with options={o2!r}'):
                 return 'violation'
-    if out[0] == 'doc' or any('failed with error' in str(x) for x in logs):
+    if out[0] == 'doc' or any(is_failure_line(x) for x in logs):
         acc.nontrivial += 1
     return out[0] + ':' + (out[1] if out[0] != 'value' else value_kind(out[1]))
 
@@ -1032,7 +1032,7 @@ def check_reach(case, acc):
     if not logs or logs[-1] != SENTINEL:
         acc.violation(case, f'the statement after the call runs (logs end with {SENTINEL!r})', [str(x)[:80] for x in logs[-3:]], f'{what}: execution did not continue')
         return 'violation'
-    nfail = sum(1 for line in logs if isinstance(line, str) and line.startswith('BareScript: Function "') and ' failed with error: ' in line)
+    nfail = sum(1 for line in logs if is_failure_line(line))
     callback = REACHES[r] in ('indexOf callback', 'sort callback')
     if not failed:
         if nfail:
